@@ -1112,3 +1112,18 @@ func ruleStickyError(c *Ctx) {
 	}
 	c.Floor("maybe-nil results assigned to a reader's error", n, 4)
 }
+
+// ---------------------------------------------------------------------------
+// modpow-sign (C13): big.Int.Exp gives the Euclidean remainder (never negative); NeoVM's MODPOW is .NET's
+// BigInteger.ModPow, whose result takes the sign of base**exponent. The value has to be shifted by |modulus| exactly
+// when base**exponent is negative and the remainder is not zero: negative base AND odd exponent AND non-zero
+// result. The correcting subtraction in the MODPOW arm is gated by all three tests.
+func ruleModPowSign(c *Ctx) {
+	runGates(c, []GateSpec{{
+		ID: "MODPOW.sign-correction", Fn: fnExecute, Arm: "MODPOW", Target: "call:math/big.(*Int).Sub",
+		Guards: []Guard{
+			{ID: "odd-exponent", Doc: "the correction applies only for an odd exponent (an even power of a negative base is positive)", Alts: [][]string{{"math/big.(*Int).Bit"}}},
+			{ID: "sign-tests", Doc: "the correction applies only for a negative base and a non-zero remainder", Alts: [][]string{{"math/big.(*Int).Sign"}}},
+		},
+	}})
+}
